@@ -133,7 +133,7 @@ func runC14(c *core.Ctx) {
 			}
 		}
 	}
-	c.Floor("R14.1", "OverlayOp writes", nW, 3)
+	c.Floor("R14.1", "OverlayOp writes", nW, 1)
 
 	// ---- R14.2
 	fin := c.P.Fn("pwr/overlay", "overlayWriter.Finalize")
@@ -154,18 +154,7 @@ func runC14(c *core.Ctx) {
 				"buffered data is flushed before HEY_YOU_DID_IT is written", "the end marker can be written before buffered data: the applier stops before the last ops").Path = c.P.PathStrings(p)
 			for _, fl := range allInstrs(fin, isFlush) {
 				fc := fl.(*ssa.Call)
-				skipNil := func(b, s *ssa.BasicBlock) bool {
-					ifi, ok := b.Instrs[len(b.Instrs)-1].(*ssa.If)
-					if !ok {
-						return false
-					}
-					bo, ok := ifi.Cond.(*ssa.BinOp)
-					if !ok || !core.IsNilConst(bo.Y) || !loadsStoredResult(bo.X, fc) {
-						return false
-					}
-					return (bo.Op == token.EQL && s == b.Succs[0]) || (bo.Op == token.NEQ && s == b.Succs[1])
-				}
-				p2 := core.FindPathSkipping(fin, fl, isInstr(w), nil, skipNil)
+				p2 := ungatedPath(fin, fc, w, nil)
 				c.Check(p2 == nil, "R14.2", core.FnName(fin), "Flush error is checked before the marker", core.InstrPos(fl),
 					"marker written only on the nil outcome of Flush", "the end marker is written although Flush failed").Path = c.P.PathStrings(p2)
 			}
